@@ -1,2 +1,193 @@
-//! C10 workload (under construction).
-fn main() {}
+//! C10 — modular arithmetic (reduce_mod, add_mod, mul_mod, pow_mod, inv_mod)
+//! vs BigUint for every modulus including 0 and 1.
+
+use num_bigint::BigUint;
+use num_traits::{One, Zero};
+use ruint::Uint;
+use vmon::{au, big, gcdgen, gen, rng::Rng, uint, Arg, Mon};
+
+vmon::widths!(exec; 0, 1, 2, 3, 7, 8, 31, 32, 60, 63, 64, 65, 100, 127, 128, 129, 160, 192, 193,
+    250, 255, 256, 257, 320, 384, 512, 521, 768, 1024, 2048);
+
+fn exec<const B: usize, const L: usize>(m: &mut Mon, op: &str, a: &[Arg]) {
+    match op {
+        "mod3" => {
+            let (x, y, md): (Uint<B, L>, Uint<B, L>, Uint<B, L>) = (uint(a[0].u()), uint(a[1].u()), uint(a[2].u()));
+            let (bx, by, bm) = (big::big(a[0].u()), big::big(a[1].u()), big::big(a[2].u()));
+            m.nontrivial(bm >= BigUint::from(2u8) && (bx >= BigUint::from(2u8) || by >= BigUint::from(2u8)));
+            let (er, ea, em) = if bm.is_zero() {
+                (gen::zero(B), gen::zero(B), gen::zero(B))
+            } else {
+                (big::limbs(&(&bx % &bm), L), big::limbs(&((&bx + &by) % &bm), L), big::limbs(&((&bx * &by) % &bm), L))
+            };
+            m.obs(|| format!("a mod m={} (a+b) mod m={} (a*b) mod m={}", big::hex(&er), big::hex(&ea), big::hex(&em)));
+            if let Some(v) = m.must_in("reduce_mod", || x.reduce_mod(md)) {
+                m.eq_uint("reduce_mod", &v, &er);
+            }
+            if let Some(v) = m.must_in("add_mod", || x.add_mod(y, md)) {
+                m.eq_uint("add_mod", &v, &ea);
+            }
+            if let Some(v) = m.must_in("mul_mod", || x.mul_mod(y, md)) {
+                m.eq_uint("mul_mod", &v, &em);
+            }
+        }
+        "pow_mod" => {
+            let (x, e, md): (Uint<B, L>, Uint<B, L>, Uint<B, L>) = (uint(a[0].u()), uint(a[1].u()), uint(a[2].u()));
+            let (bx, be, bm) = (big::big(a[0].u()), big::big(a[1].u()), big::big(a[2].u()));
+            m.nontrivial(bm >= BigUint::from(2u8) && bx >= BigUint::from(2u8) && be >= BigUint::from(2u8));
+            let ep = if bm.is_zero() { gen::zero(B) } else { big::limbs(&bx.modpow(&be, &bm), L) };
+            m.obs(|| format!("a^e mod m={}", big::hex(&ep)));
+            if let Some(v) = m.must_in("pow_mod", || x.pow_mod(e, md)) {
+                m.eq_uint("pow_mod", &v, &ep);
+            }
+        }
+        "inv_mod" => {
+            let (x, md): (Uint<B, L>, Uint<B, L>) = (uint(a[0].u()), uint(a[1].u()));
+            let (bx, bm) = (big::big(a[0].u()), big::big(a[1].u()));
+            m.nontrivial(bm >= BigUint::from(2u8) && bx >= BigUint::from(2u8));
+            let exists = bm >= BigUint::from(2u8) && big::gcd(&bx, &bm).is_one();
+            if let Some(r) = m.must_in("inv_mod", || x.inv_mod(md)) {
+                match r {
+                    Some(v) => {
+                        m.canonical(&v);
+                        if m.eq("inv_mod.some", &true, &exists) {
+                            let bv = big::big(v.as_limbs());
+                            m.check(bv < bm, "inv_mod.range", || format!("x < m = {}", big::bhex(&bm)), || big::bhex(&bv));
+                            let prod = (&bx * &bv) % &bm;
+                            m.check(prod.is_one(), "inv_mod.value", || "a*x = 1 (mod m)".into(), || format!("x={} a*x mod m={}", big::bhex(&bv), big::bhex(&prod)));
+                            m.obs(|| format!("inverse={}", big::bhex(&bv)));
+                        }
+                    }
+                    None => {
+                        m.eq("inv_mod.none", &true, &!exists);
+                    }
+                }
+            }
+        }
+        _ => panic!("harness: unknown op {op}"),
+    }
+}
+
+/// Hostile modulus: 0, 1, 2, 3, 2^k, 2^k+-1, 2^BITS-1, short (1..LIMBS limbs), alphabet.
+fn modulus(r: &mut Rng, bits: usize) -> Vec<u64> {
+    if bits == 0 {
+        return vec![];
+    }
+    let l = gen::nlimbs(bits);
+    match r.below(12) {
+        0 => gen::small(r.below(4) as u64, bits),
+        1 => gen::pow2(r.below(bits), bits),
+        2 => gen::ones(r.range(1, bits), bits),
+        3 => {
+            let mut v = gen::pow2(r.below(bits), bits);
+            v[0] |= 1;
+            v
+        }
+        4 => gen::max(bits),
+        5 | 6 => {
+            // short modulus: dl limbs
+            let dl = r.range(1, l);
+            let len = (64 * dl).min(bits);
+            let tb = r.range(len.saturating_sub(63).max(1), len);
+            gen::with_bit_len(r, tb, bits)
+        }
+        7 => {
+            let mut v = gen::alphabet(r, bits);
+            v[0] |= 1;
+            v
+        }
+        _ => gen::hostile(r, bits),
+    }
+}
+
+fn workload(m: &mut Mon, bits: usize) {
+    if bits <= 3 {
+        for a in 0..(1u64 << bits) {
+            for b in 0..(1u64 << bits) {
+                for md in 0..(1u64 << bits) {
+                    if !m.keep() {
+                        continue;
+                    }
+                    let (a, b, md) = (gen::small(a, bits), gen::small(b, bits), gen::small(md, bits));
+                    m.case("mod3", bits, vec![au(&a), au(&b), au(&md)]);
+                    m.case("pow_mod", bits, vec![au(&a), au(&b), au(&md)]);
+                }
+                m.case("inv_mod", bits, vec![au(&gen::small(a, bits)), au(&gen::small(b, bits))]);
+            }
+        }
+        if !m.is_light() {
+            m.mark_exhaustive(format!("all (a, b, m) and (a, e, m) triples at BITS={bits}"));
+        }
+    }
+    if bits == 0 {
+        return;
+    }
+    let bd = gen::boundary(bits);
+    let mut r = m.stream("c10.directed", bits);
+    let special: Vec<Vec<u64>> = vec![gen::zero(bits), gen::small(1, bits), gen::small(2, bits), gen::small(3, bits), gen::max(bits),
+        gen::pow2(bits - 1, bits), gen::ones(bits - 1, bits), gen::pow2(bits / 2, bits)];
+    for md in bd.iter().chain(special.iter()) {
+        if !m.keep() {
+            continue;
+        }
+        // a = b = m - 1, operands >= m, sums / products overflowing BITS
+        let bm = big::big(md);
+        let m1 = if bm.is_zero() { gen::max(bits) } else { big::limbs(&(&bm - 1u8), gen::nlimbs(bits)) };
+        let cands = [m1.clone(), gen::max(bits), md.clone(), r.pick(&bd).clone(), r.pick(&bd).clone()];
+        for x in &cands {
+            for y in &cands {
+                m.case("mod3", bits, vec![au(x), au(y), au(md)]);
+            }
+            m.case("inv_mod", bits, vec![au(x), au(md)]);
+            if bits <= 1024 {
+                for e in [gen::zero(bits), gen::small(1, bits), gen::small(2, bits), gen::small(3, bits), gen::small(65537, bits)] {
+                    m.case("pow_mod", bits, vec![au(x), au(&e), au(md)]);
+                }
+            }
+        }
+    }
+    // random
+    let mut r = m.stream("c10.random", bits);
+    let iters = m.iters(if bits <= 256 { 4000 } else if bits <= 1024 { 1200 } else { 250 });
+    for i in 0..iters {
+        if i % 64 == 0 && m.time_up() {
+            break;
+        }
+        let md = modulus(&mut r, bits);
+        let x = gen::hostile(&mut r, bits);
+        let y = gen::hostile(&mut r, bits);
+        m.case("mod3", bits, vec![au(&x), au(&y), au(&md)]);
+        // inverse: hostile pair, and pairs with a known quotient sequence
+        m.case("inv_mod", bits, vec![au(&x), au(&md)]);
+        let pat = r.below(10);
+        let (ga, gb, _) = gcdgen::pair(&mut r, bits, pat);
+        let l = gen::nlimbs(bits);
+        m.case("inv_mod", bits, vec![au(&big::limbs(&gb, l)), au(&big::limbs(&ga, l))]);
+        m.case("inv_mod", bits, vec![au(&big::limbs(&ga, l)), au(&big::limbs(&gb, l))]);
+        // pow_mod: exponents 0, 1, 2^k, small, full width (full width only up to 1024 bits and thinned)
+        if i % 4 == 0 {
+            let e = match r.below(6) {
+                0 => gen::pow2(r.below(bits), bits),
+                1 => gen::small(r.below(70) as u64, bits),
+                2 => gen::small(gen::alpha_limb(&mut r), bits),
+                3 if bits <= 512 || i % 64 == 0 => gen::hostile(&mut r, bits),
+                4 if bits <= 512 || i % 64 == 0 => gen::max(bits),
+                _ => gen::with_bit_len(&mut r, bits.min(40), bits),
+            };
+            m.case("pow_mod", bits, vec![au(&x), au(&e), au(&md)]);
+        }
+    }
+}
+
+fn main() {
+    let mut m = Mon::new("C10", dispatch);
+    m.use_hooks = true;
+    if !m.replay_if_requested() {
+        for &bits in WIDTHS {
+            if m.width_enabled(bits) {
+                workload(&mut m, bits);
+            }
+        }
+    }
+    m.finish();
+}
